@@ -89,7 +89,7 @@ def events(seed, full=True):
         ev.append(('read', r))
     if not full:
         # the quick tier keeps every growth call and fault, the derivations that can share state, and two reads
-        keep = {'to_frame', 'to_frame_go', 'iloc[:, :]', 'rename', 'relabel', 'columns-static', 'to_frame_go-grow', 'deepcopy-grow', 'values', 'columns.values'}
+        keep = {'to_frame', 'to_frame_go', 'iloc[:, :]', 'rename', 'relabel', 'sort_columns', 'columns-static', 'to_frame_go-grow', 'deepcopy-grow', 'values', 'columns.values'}
         ev = [e for e in ev if e[0] not in ('derive', 'read') or e[1] in keep]
         ev = [e for e in ev if e not in (('set', L[2], 'frame'), ('set', L[2], 'array-2d'), ('extend', 'frame-empty', ()), ('set', L[2], 'list'))]
     return ev
@@ -187,7 +187,8 @@ def run_case(case, ctx):
             ev = evs[i]
             kind = ev[0]
             if kind in ('set', 'extend', 'extend_items'):
-                pre = snap(f)
+                # NB: nothing is read from the subject between events (a read would materialise caches and hide stale-cache defects);
+                # every prefix of a history is itself explored and fully compared at its end, so no check is lost
                 existing = model.labels[0] if model.labels else None
                 sub = lambda l: existing if l == 'EXISTING' else l
                 expect_ok = True
@@ -261,20 +262,15 @@ def run_case(case, ctx):
                     model.dtypes += [None] * len(add_labels)
                     n_new += len(add_labels)
                     grew = grew or bool(add_labels)
-                    agree(ctx, f'{tag}|after-growth', f, model, info)
                 else:
-                    # all-or-nothing
-                    post = snap(f)
-                    if post != pre:
-                        part = 'prefix-of-the-items-was-applied' if kind == 'extend_items' and len(f.columns) > len(model.labels) and f.shape[1] == len(f.columns) else 'subject-changed'
-                        ctx.violation(f'{tag}|rejected-call-not-atomic|{part}', **info, before_columns=model.labels,
+                    # all-or-nothing: the model is left as it was, so the comparison at the end of this history (and of every longer one)
+                    # demands the pre-call state.  extend_items is known to apply the pairs before the failing one: detect that here
+                    # (one read, only on this path) and follow the real object so that the rest of the history can still be explored
+                    if kind == 'extend_items' and f._blocks.shape[1] > len(model.labels) and f._blocks.shape[1] == len(f.columns):
+                        ctx.violation(f'{tag}|rejected-call-not-atomic|prefix-of-the-items-was-applied', **info, before_columns=model.labels,
                                       after_columns=[repr(x) for x in f.columns], data_shape=f._blocks.shape)
-                        if part == 'subject-changed':
-                            return False
-                        # follow the real object so that the rest of the history can still be explored
                         model = Model(f)
                         model.dtypes = [None] * len(model.labels)
-                    agree(ctx, f'{tag}|after-rejection', f, model, info)
             elif kind == 'derive':
                 name = ev[1]
                 try:
@@ -293,9 +289,13 @@ def run_case(case, ctx):
                     elif name == 'rename':
                         d = f.rename('other')
                     elif name == 'sort_columns':
-                        if seed.startswith('hier'):
+                        if not model.labels or not all(type(l) is type(model.labels[0]) for l in model.labels):
                             continue
-                        d = f.sort_columns(ascending=False) if all(isinstance(l, (str, int)) and type(l) is type(model.labels[0]) for l in model.labels) else f.to_frame()
+                        d = f.sort_columns(ascending=False)
+                        gl = [tuple(x) if isinstance(x, (np.ndarray, tuple)) else x for x in (d.columns if d.columns.depth > 1 else d.columns.values.tolist())]
+                        if gl != sorted(model.labels, reverse=True) or d.shape != (3, len(model.labels)):
+                            ctx.violation('derive:sort_columns|result-does-not-hold-every-column-sorted', **info, got=gl, expected=sorted(model.labels, reverse=True))
+                            return False
                     elif name == 'reindex':
                         d = f.reindex(index=('z', 'y', 'w'))
                     elif name == 'mul':
@@ -328,7 +328,6 @@ def run_case(case, ctx):
                     ctx.violation(f'derive:{name}|raises-{type(e).__name__}', **info, error=repr(e))
                     return False
                 derived.append((name, d, snap(d)))
-                agree(ctx, f'derive:{name}|subject-after-derivation', f, model, info)
             else:
                 try:
                     r = ev[1]
